@@ -181,7 +181,8 @@ impl<'a> Decoder<'a> {
 
     // Decode `JEntries` for `Array` and `Object`
     fn decode_jentries(&mut self, length: usize) -> Result<VecDeque<JEntry>, Error> {
-        let mut jentries: VecDeque<JEntry> = VecDeque::with_capacity(length);
+        // the count comes from untrusted bytes: never reserve more entries than the buffer can hold
+        let mut jentries: VecDeque<JEntry> = VecDeque::with_capacity(length.min(self.buf.len() / 4));
         for _ in 0..length {
             let encoded = self.buf.read_u32::<BigEndian>()?;
             let jentry = JEntry::decode_jentry(encoded);
